@@ -21,8 +21,8 @@ TDayYears   == {3, 4, 5} \cup (1896..2104) \cup {9995, 9996, 9997}
 CIntSerials == {-3, -1, 0, 1, 7, 100}
 COffsets    == {-400, -13, -12, -5, -4, -3, -2, -1, 0, 1, 2, 3, 4, 5, 12, 13, 400}
 
-VARIABLES p, out, done
-vars == <<p, out, done>>
+VARIABLES p, out, done, picked
+vars == <<p, out, done, picked>>
 
 Kws == {"yoy", "soy", "eopy", "tty"}
 
@@ -52,12 +52,21 @@ OutInt(q) ==
     [ n |-> q.n, sdmx |-> Sdmx(q), repr |-> Repr(q), shape |-> SdmxShape(q),
       add |-> [k \in Offsets |-> Plus(q, k).n] ]
 
-Init == p \in Periods /\ out = <<>> /\ done = FALSE
-Compute == /\ ~done
+\* The initial states are one seed period per (frequency, year); the period itself is chosen in a second step so that the
+\* enumeration is spread over all workers (TLC generates initial states with one thread).
+Seeds == {FromYS(f, y, 1) : f \in RegularFreqs, y \in Years} \cup {Per("D", DaysBeforeYear(y) + 1) : y \in DayYears} \cup IntegerPeriods
+SameYear(q) == IF q.f = "I" THEN {q}
+               ELSE IF q.f = "D" THEN {Per("D", q.n + s) : s \in 0..(YearLen(YearOf(q)) - 1)}
+               ELSE {FromYS(q.f, YearOf(q), s) : s \in 1..PerYear(q.f)}
+Init == p \in Seeds /\ out = <<>> /\ done = FALSE /\ picked = FALSE
+Pick == /\ ~picked /\ picked' = TRUE /\ p' \in SameYear(p) /\ UNCHANGED <<out, done>>
+Compute == /\ picked /\ ~done
            /\ done' = TRUE
            /\ out' = IF p.f = "I" THEN OutInt(p) ELSE OutCal(p)
-           /\ UNCHANGED p
-Next == Compute
+           /\ UNCHANGED <<p, picked>>
+\* every period of the configured years is reached: Seeds and SameYear tile Periods
+ASSUME UNION {SameYear(q) : q \in Seeds} = Periods
+Next == Pick \/ Compute
 Spec == Init /\ [][Next]_vars
 
 -----------------------------------------------------------------------------
